@@ -200,6 +200,12 @@ func HandleSendInstantMsg(cc *hotline.ClientConn, t *hotline.Transaction) (res [
 
 var fileTypeFLDR = [4]byte{0x66, 0x6c, 0x64, 0x72}
 
+// addressesFileRoot reports whether fullPath is the client's file root itself.  The root has no name: it cannot be
+// inspected, renamed, moved, deleted or downloaded as a file, and its fork side files would lie outside the root.
+func addressesFileRoot(cc *hotline.ClientConn, fullPath string) bool {
+	return filepath.Clean(fullPath) == filepath.Clean(cc.FileRoot())
+}
+
 func HandleGetFileInfo(cc *hotline.ClientConn, t *hotline.Transaction) (res []hotline.Transaction) {
 	fileName := t.GetField(hotline.FieldFileName).Data
 	filePath := t.GetField(hotline.FieldFilePath).Data
@@ -207,6 +213,9 @@ func HandleGetFileInfo(cc *hotline.ClientConn, t *hotline.Transaction) (res []ho
 	fullFilePath, err := hotline.ReadPath(cc.FileRoot(), filePath, fileName)
 	if err != nil {
 		return res
+	}
+	if addressesFileRoot(cc, fullFilePath) {
+		return cc.NewErrReply(t, "Cannot get info because no file or folder was named.")
 	}
 
 	fw, err := hotline.NewFileWrapper(cc.Server.FS, fullFilePath, 0)
@@ -256,6 +265,9 @@ func HandleSetFileInfo(cc *hotline.ClientConn, t *hotline.Transaction) (res []ho
 	fullFilePath, err := hotline.ReadPath(cc.FileRoot(), filePath, fileName)
 	if err != nil {
 		return res
+	}
+	if addressesFileRoot(cc, fullFilePath) {
+		return cc.NewErrReply(t, "Cannot set info because no file or folder was named.")
 	}
 
 	fi, err := cc.Server.FS.Stat(fullFilePath)
@@ -352,6 +364,9 @@ func HandleDeleteFile(cc *hotline.ClientConn, t *hotline.Transaction) (res []hot
 	if err != nil {
 		return res
 	}
+	if addressesFileRoot(cc, fullFilePath) {
+		return cc.NewErrReply(t, "Cannot delete file "+string(fileName)+" because it does not exist or cannot be found.")
+	}
 
 	hlFile, err := hotline.NewFileWrapper(cc.Server.FS, fullFilePath, 0)
 	if err != nil {
@@ -394,6 +409,9 @@ func HandleMoveFile(cc *hotline.ClientConn, t *hotline.Transaction) (res []hotli
 	fileNewPath, err := hotline.ReadPath(cc.FileRoot(), t.GetField(hotline.FieldFileNewPath).Data, nil)
 	if err != nil {
 		return res
+	}
+	if addressesFileRoot(cc, filePath) {
+		return cc.NewErrReply(t, "Cannot move file "+fileName+" because it does not exist or cannot be found.")
 	}
 
 	cc.Logger.Info("Move file", "src", filePath+"/"+fileName, "dst", fileNewPath+"/"+fileName)
@@ -1286,6 +1304,9 @@ func HandleDownloadFile(cc *hotline.ClientConn, t *hotline.Transaction) (res []h
 	fullFilePath, err := hotline.ReadPath(cc.FileRoot(), filePath, fileName)
 	if err != nil {
 		return res
+	}
+	if addressesFileRoot(cc, fullFilePath) {
+		return cc.NewErrReply(t, "Cannot download because no file was named.")
 	}
 
 	hlFile, err := hotline.NewFileWrapper(cc.Server.FS, fullFilePath, dataOffset)
